@@ -48,3 +48,90 @@ Proof. intro H. unfold lex. rewrite !tpl_run by assumption. apply tpl_skeleton. 
 Lemma tpl_instance_tokens t rest s : tpl_ok QN t rest = true ->
   lex (fill t rest (quote s)) = tpl_toks QN t rest s.
 Proof. intro H. unfold lex. now apply tpl_run. Qed.
+
+(* ------------------------------------------------------------------ *)
+(* The machine's control does not depend on the bytes decoded so far: states that differ only in the
+   content of a string literal under construction produce the same skeleton.                          *)
+
+Definition sim (q1 q2 : st) : Prop :=
+  match q1, q2 with
+  | QStr _, QStr _ | QStrB _, QStrB _ | QStrX _, QStrX _ | QStrX1 _ _, QStrX1 _ _ | QStrQ _, QStrQ _ => True
+  | _, _ => q1 = q2
+  end.
+
+Lemma sim_refl q : sim q q.
+Proof. destruct q; cbn; auto. Qed.
+
+Lemma emit_then_sim a b c :
+  sim (fst (emit_then (TStr a) c)) (fst (emit_then (TStr b) c)) /\
+  skeleton (snd (emit_then (TStr a) c)) = skeleton (snd (emit_then (TStr b) c)).
+Proof. unfold emit_then. destruct (step_normal c) as [q out]. cbn. split; [apply sim_refl|reflexivity]. Qed.
+
+Lemma step_sim q1 q2 c : sim q1 q2 ->
+  sim (fst (step q1 c)) (fst (step q2 c)) /\ skeleton (snd (step q1 c)) = skeleton (snd (step q2 c)).
+Proof.
+  intro H.
+  destruct q1; destruct q2; cbn [sim] in H; try discriminate H;
+  try (injection H; intros; subst; split; [apply sim_refl|reflexivity]);
+  try (split; [apply sim_refl|reflexivity]).
+  - (* QStr *) cbn [step]. destruct (Ascii.eqb c "'"); [cbn; auto|]. destruct (Ascii.eqb c "\"); cbn; auto.
+  - (* QStrB *) cbn [step]. destruct (Ascii.eqb c "x"); [cbn; auto|]. destruct (Ascii.eqb c "N"); cbn; auto.
+  - (* QStrX *) cbn; auto.
+  - (* QStrX1 *) cbn; auto.
+  - (* QStrQ *) cbn [step]. destruct (Ascii.eqb c "'"); [cbn; auto|]. apply emit_then_sim.
+Qed.
+
+Lemma flush_sim q1 q2 : sim q1 q2 -> skeleton (flush q1) = skeleton (flush q2).
+Proof.
+  destruct q1; destruct q2; cbn [sim]; intro H; try discriminate H;
+  try (injection H; intros; subst; reflexivity); reflexivity.
+Qed.
+
+Lemma run_sim : forall s q1 q2, sim q1 q2 -> skeleton (run q1 s) = skeleton (run q2 s).
+Proof.
+  induction s as [|c s IH]; intros q1 q2 H; [now apply flush_sim|].
+  cbn [run]. destruct (step_sim q1 q2 c H) as [Hs Ho].
+  destruct (step q1 c) as [q1' o1]. destruct (step q2 c) as [q2' o2]. cbn [fst snd] in *.
+  rewrite !skeleton_app, Ho, (IH _ _ Hs). reflexivity.
+Qed.
+
+Lemma after_sim : forall s q1 q2, sim q1 q2 -> sim (after q1 s) (after q2 s).
+Proof.
+  induction s as [|c s IH]; intros q1 q2 H; [assumption|].
+  cbn [after]. apply IH. exact (proj1 (step_sim q1 q2 c H)).
+Qed.
+
+Lemma outs_sim : forall s q1 q2, sim q1 q2 -> skeleton (outs q1 s) = skeleton (outs q2 s).
+Proof.
+  induction s as [|c s IH]; intros q1 q2 H; [reflexivity|].
+  cbn [outs]. destruct (step_sim q1 q2 c H) as [Hs Ho].
+  rewrite !skeleton_app, Ho, (IH _ _ Hs). reflexivity.
+Qed.
+
+Lemma sim_in_body q1 q2 : sim q1 q2 -> in_body q2 = true -> exists a1 a2, q1 = QStr a1 /\ q2 = QStr a2.
+Proof.
+  destruct q2; cbn [in_body]; try discriminate. intros H _.
+  destruct q1; cbn [sim] in H; try discriminate H. eauto.
+Qed.
+
+Lemma tplq_run : forall rest q1 q2 t s1 s2, sim q1 q2 -> tplq_ok q2 t rest = true ->
+  skeleton (run q1 (fill t rest (esc s1))) = skeleton (run q2 (fill t rest (esc s2))).
+Proof.
+  induction rest as [|t' rest' IH]; intros q1 q2 t s1 s2 Hsim Hok.
+  - unfold fill. cbn. rewrite !sapp_nil_r. now apply run_sim.
+  - unfold fill in *. cbn [fill_rest tplq_ok] in *.
+    apply andb_true_iff in Hok. destruct Hok as [Hbody Hrest].
+    rewrite (run_app t q1), (run_app t q2), !skeleton_app, (outs_sim t q1 q2 Hsim).
+    destruct (sim_in_body _ _ (after_sim t q1 q2 Hsim) Hbody) as (a1 & a2 & E1 & E2).
+    rewrite E1, E2. rewrite (run_app (esc s1)), (run_app (esc s2)).
+    destruct (esc_in_literal s1 a1) as [A1 O1]. destruct (esc_in_literal s2 a2) as [A2 O2].
+    rewrite A1, O1, A2, O2. cbn [app].
+    f_equal.
+    transitivity (skeleton (run (QStr EmptyString) (t' ++ fill_rest rest' (esc s2)))).
+    + apply (IH (QStr (a1 ++ s1)) (QStr EmptyString) t' s1 s2); [exact I|assumption].
+    + symmetry. apply (IH (QStr (a2 ++ s2)) (QStr EmptyString) t' s2 s2); [exact I|assumption].
+Qed.
+
+Lemma tplq_skeleton_invariant t rest s1 s2 : tplq_ok QN t rest = true ->
+  skeleton (lex (fill t rest (esc s1))) = skeleton (lex (fill t rest (esc s2))).
+Proof. intro H. unfold lex. apply tplq_run; [apply sim_refl|assumption]. Qed.
